@@ -65,8 +65,8 @@ Proof. exact EquiUnique.equimodular_construct_b. Qed.
 Print Assumptions C16_constructed_instances.
 
 Theorem C16_row_operations_keep_the_determinant : forall (d : list Z) (ops : list EquiCertModel.rowop), let m := length d in
-  wf_mat m m (fold_left (EquiCertModel.apply_op m) ops (EquiCertModel.diag_mat d)) = true /\
-  Z.abs (det m (fold_left (EquiCertModel.apply_op m) ops (EquiCertModel.diag_mat d))) = Z.abs (fold_right Z.mul 1 d).
+  wf_mat m m (fold_left (EquiCertModel.apply_op m m) ops (EquiCertModel.diag_mat d)) = true /\
+  Z.abs (det m (fold_left (EquiCertModel.apply_op m m) ops (EquiCertModel.diag_mat d))) = Z.abs (fold_right Z.mul 1 d).
 Proof. exact EquiUnique.det_apply_ops. Qed.
 Print Assumptions C16_row_operations_keep_the_determinant.
 
@@ -152,3 +152,16 @@ Theorem C16_gcdExt_leaf_judge_specification :
     LeafModel.leaf_spec 12 [a; b] s = true /\ LeafModel.leaf_spec 13 [a; b] t = true.
 Proof. exact GcdProofs.leaf_spec_gcdExt. Qed.
 Print Assumptions C16_gcdExt_leaf_judge_specification.
+
+(* ---------- rank-deficient certified instances: L is m x r (r <= m), elementary row operations applied to [diag d; 0]; the gcd of
+   its r x r minors is invariant under row operations and equals |prod d|, so M = L X is equimodular with that value at rank r < m ---------- *)
+Theorem C16_minors_gcd_invariant_under_row_operations : forall (m r : nat) (L : mat) (o : EquiCertModel.rowop),
+  wf_mat m r L = true -> minors_gcd m r (EquiCertModel.apply_op m r L o) = minors_gcd m r L.
+Proof. exact EquiUnique.minors_gcd_apply_op. Qed.
+Print Assumptions C16_minors_gcd_invariant_under_row_operations.
+
+Theorem C16_minors_gcd_of_a_certified_factor : forall (m : nat) (d : list Z) (ops : list EquiCertModel.rowop), (length d <= m)%nat ->
+  wf_mat m (length d) (EquiCertModel.cert_L m d ops) = true /\
+  minors_gcd m (length d) (EquiCertModel.cert_L m d ops) = Z.abs (fold_right Z.mul 1 d).
+Proof. exact EquiUnique.minors_gcd_cert_L. Qed.
+Print Assumptions C16_minors_gcd_of_a_certified_factor.
